@@ -39,6 +39,8 @@ def judge_server(row, exp, obs):
             bad.append("deflate")
         if not obs["opened"] or not obs["works"]:
             bad.append("not-upgraded")
+        if not obs["deflate"] and any(r for r in obs.get("rsv_sent", [])):
+            bad.append("rsv-without-extension")
     else:
         if st not in (400, 403, 426):
             bad.append("status")
@@ -67,7 +69,7 @@ def judge_client(row, exp, obs):
 def deviations(row):
     if row["side"] == "server":
         return {"upgrade": row["upgrade"]["v"], "connection": row["connection"]["v"], "key": row["key"]["v"],
-                "version": row["version"]["v"], "origin_rel": row["origin"]["rel"], "origin": row["origin"]["v"],
+                "version": row["version"]["v"], "origin_rel": row["origin"]["rel"], "origin": row["origin"]["v"], "legacy_origin": row["origin"].get("legacy", "-"),
                 "host": row["origin"]["host"], "sub_policy": row["sub"]["policy"], "sub_offer": row["sub"]["offer"],
                 "ext": row["ext"]["v"], "enabled": row["enabled"]}
     return {"status": row["status"], "upgrade": row["upgrade"]["v"], "connection": row["connection"]["v"],
